@@ -87,6 +87,11 @@ func vfUnreserved(s string) bool {
 }
 
 func vfC05(w *vfWorld) {
+	if w.variant == "race" {
+		// logins of many browsers truly in parallel: state, nonce and verifier handling must not share anything
+		vfFreeRun(w, "C05")
+		return
+	}
 	t := w.tape
 	cs := &vfC05Case{}
 	w.sample = cs
@@ -98,6 +103,18 @@ func vfC05(w *vfWorld) {
 	cfg.Store = vfPick(t, "c05.store", []string{"cookie", "redis"})
 	cs.PKCE, cs.SkipNonce, cs.PerRequest = cfg.PKCE, cfg.SkipNonce, cfg.CSRFPerRequest
 	idp := w.StartIdP()
+	// what the provider's metadata says about PKCE is advisory: the operator's configured method is what the statement
+	// binds every authorization request to
+	switch t.Weighted("c05.discovery-methods", 5, 1, 1, 1, 1) {
+	case 1:
+		idp.DiscoveryExtra = map[string]interface{}{"code_challenge_methods_supported": []string{"S256"}}
+	case 2:
+		idp.DiscoveryExtra = map[string]interface{}{"code_challenge_methods_supported": []string{"plain"}}
+	case 3:
+		idp.DiscoveryExtra = map[string]interface{}{"code_challenge_methods_supported": []string{}}
+	case 4:
+		idp.DiscoveryExtra = map[string]interface{}{"code_challenge_methods_supported": nil}
+	}
 	reps := w.Standard(cfg, 1)
 	rep := reps[0]
 	pp := cfg.ProxyPrefix
